@@ -148,3 +148,39 @@ pub fn unhex(s: &str) -> Vec<u8> {
         .map(|i| u8::from_str_radix(&s[2 * i..2 * i + 2], 16).unwrap_or(0))
         .collect()
 }
+
+/// Reads structured values out of fuzzer bytes (zeros past the end).
+pub struct Cursor<'a> {
+    pub d: &'a [u8],
+    pub i: usize,
+}
+
+impl<'a> Cursor<'a> {
+    pub fn u8(&mut self) -> u8 {
+        let v = self.d.get(self.i).copied().unwrap_or(0);
+        self.i += 1;
+        v
+    }
+    pub fn u16(&mut self) -> u16 {
+        (self.u8() as u16) << 8 | self.u8() as u16
+    }
+    pub fn u32(&mut self) -> u32 {
+        (self.u16() as u32) << 16 | self.u16() as u32
+    }
+    pub fn u64(&mut self) -> u64 {
+        (self.u32() as u64) << 32 | self.u32() as u64
+    }
+    /// uniform-ish in lo..=hi, monotone in the byte value
+    pub fn range(&mut self, lo: usize, hi: usize) -> usize {
+        let span = hi - lo + 1;
+        if span <= 256 {
+            lo + (self.u8() as usize * span) / 256
+        } else {
+            lo + (self.u16() as usize * span) / 65536
+        }
+    }
+    pub fn rest(&self) -> &'a [u8] {
+        &self.d[self.i.min(self.d.len())..]
+    }
+}
+
